@@ -49,10 +49,11 @@ ZOO = {
     18: SEQ(R(BITS)),
     19: SEQ(R(LIST(LIST(I("u8")))), R(I("u8"))),
     20: CHOICE(LIST(I("u8")), I("u8")),
+    21: SEQ(R(LIST(NULL)), R(I("u8"))),
 }
 ZOO_NAMES = {0: "Ints", 1: "Inner", 2: "Color", 3: "Prim", 4: "Opt", 5: "Lists", 6: "Ch2", 7: "Ch", 8: "ChSeq",
              9: "Lists2", 10: "Tup", 11: "TupL", 12: "UseTup", 13: "Deep", 14: "SetT", 15: "NullSeq", 16: "OptNull",
-             17: "ChNull", 18: "BitsT", 19: "Nested", 20: "ChList"}
+             17: "ChNull", 18: "BitsT", 19: "Nested", 20: "ChList", 21: "ListNull"}
 PEQ_ZOO = {
     0: SEQ(O(I("u64")), O(STR), O(BOOL), R(LIST(I("i32"))), O(BYTES), R(BITS), O(INNER), O(LIST(STR))),
     1: CHOICE(I("u64"), INNER, STR),
@@ -510,6 +511,31 @@ def flatten_nested(t, v):
     return v
 
 
+def null_lists(t, v):
+    """number of NULL elements held by SEQUENCE OF NULL lists inside the value"""
+    k = t[0]
+    if k == "list":
+        return len(v) if t[1][0] == "null" else sum(null_lists(t[1], e) for e in v)
+    if k == "seq":
+        return sum(null_lists(ft, fv[1] if opt else fv) for (opt, ft), fv in zip(t[1], v) if not (opt and fv == NONE))
+    if k == "choice":
+        return null_lists(t[1][v[0]], v[1])
+    return 0
+
+
+def drop_null_lists(t, v):
+    """the value with every SEQUENCE OF NULL emptied (nothing is written for a NULL element)"""
+    k = t[0]
+    if k == "list":
+        return [] if t[1][0] == "null" else [drop_null_lists(t[1], e) for e in v]
+    if k == "seq":
+        return [fv if (opt and fv == NONE) else (some(drop_null_lists(ft, fv[1])) if opt else drop_null_lists(ft, fv))
+                for (opt, ft), fv in zip(t[1], v)]
+    if k == "choice":
+        return (v[0], drop_null_lists(t[1][v[0]], v[1]))
+    return v
+
+
 def parse_4050(o):
     """-> dict(w=('ok', bytes)|('err',k)|('panic',c), s=..., r=('ok', ints)|...)"""
     res = {}
@@ -569,7 +595,7 @@ class C17(Spec):
                   "breaks the property; the model is tied to the crate by differential execution over a zoo of asn_to_rust! types "
                   "(dev and release), with a Python oracle for ProtobufEq and byte equality of the two writer back ends.")
     rule = ("primitive ops: varint/zig-zag/tag/uint32/bool/sfixed32 boundary families (+-2^k+-1, type extremes) and random values "
-            "with tails; raw reads of random/biased bytes incl. UTF-8 edge sequences; zoo of 21 generated types x styles "
+            "with tails; raw reads of random/biased bytes incl. UTF-8 edge sequences; zoo of 22 generated types x styles "
             "{default-ish, random with boundary integers, big (long strings/lists)} x cap modes {exact, +3, -1} for the slice back end, "
             "every CHOICE alternative, every boundary of every integer kind; ProtobufEq on hand-written derive types; malformed "
             "streams for every zoo type (random bytes, truncations, bit flips, length-field overwrites of well-formed encodings). "
@@ -815,6 +841,8 @@ class C17(Spec):
                         cls = "nested_list_flattened"
                     elif bits_excess(t, v) and peq(t, trim_bits(t, v), back):
                         cls = "bitvec_excess_bytes"
+                    elif null_lists(t, v) > 0 and peq(t, drop_null_lists(t, v), back):
+                        cls = "list_of_null_elements_lost"
                     else:
                         cls = "roundtrip_not_peq"
                     res.append((cls, "read back %s for %s" % (str(back)[:90], str(v)[:90])))
